@@ -98,7 +98,7 @@ Definition variant (m : N) : cfg :=
               (override n_groupname [AAlt (ASeqs [L "$$"; R n_idns]) (R n_idns)]
               (override n_bareword [R n_idns;
                                     (* member_key's third alternative, typename generic_args?, is reached by "$" names *)
-                                    ASeqs [L "$"; if bit m d_implicit_ws then S_ else AEps; R n_idns;
+                                    ASeqs [L "$"; R n_idns;
                                            if bit m d_implicit_ws then AOpt (ASeqs [S_; R n_genericarg]) else AOpt (R n_genericarg)]]
               (override n_genericparm [ASeqs [L "<"; S_; R n_idns; S_; AStar (ASeqs [L ","; S_; R n_idns; S_]); L ">"]] g1)))
             else g1 in
@@ -123,7 +123,7 @@ Definition variant (m : N) : cfg :=
                  ASeqs [R n_groupname; AOpt (R n_genericparm); S_; L "//="; S_; R n_grpent];
                  ASeqs [R n_groupname; AOpt (R n_genericparm); S_; L "="; S_; R n_grpent0];
                  (* a "$$" name cannot be read as a typename, so nothing is committed *)
-                 ASeqs [L "$$"; if bit m d_implicit_ws then S_ else AEps; R n_idns;
+                 ASeqs [L "$$"; R n_idns;
                         if bit m d_implicit_ws then ASeqs [S_; AOpt (R n_genericparm)] else AOpt (R n_genericparm);
                         S_; L "="; S_; R n_grpent]] g5
               ++ [(n_occ3, AAlts [L "?"; L "+"; ASeqs [L "*"; AOpt (R n_uint)]]);
@@ -164,9 +164,7 @@ Definition variant (m : N) : cfg :=
             else g8 in
   (* implicit skips (the type2 ones are above) *)
   let g10 := if bit m d_implicit_ws then
-               g9 ++ [(n_typename, ASeqs [L "$"; S_; R n_idns]);
-                      (n_groupname, ASeqs [L "$$"; S_; R n_idns]);
-                      (n_rule, ASeqs [R n_typename; S_; R n_genericparm; S_; R n_assignt; S_; R n_type]);
+               g9 ++ [(n_rule, ASeqs [R n_typename; S_; R n_genericparm; S_; R n_assignt; S_; R n_type]);
                       (n_rule, ASeqs [R n_groupname; S_; R n_genericparm; S_; (if bit m d_group_rule then L "//=" else R n_assigng); S_; R n_grpent]);
                       (n_grpent, ASeqs [AOpt (ASeqs [R n_occur; S_]); R n_notbytes; R n_groupname; S_; R n_genericarg]);
                       (n_ctlop, ASeqs [L "."; S_; R n_ctlname])]
